@@ -230,8 +230,20 @@ func report(root, prop, tier string, seed int, res *checkResult, base *Baseline,
 		root = d
 	}
 	inBase := map[string]bool{}
+	baseStem := map[string]bool{}
 	for _, n := range base.Obligations[prop] {
 		inBase[n] = true
+		baseStem[stem(n)] = true
+	}
+	// a contract clause that is in the baseline must hold at every program point it applies to: an obligation of a
+	// contract-level kind generated at a new return / new site of the same clause counts as a baseline obligation
+	for _, o := range res.obls {
+		switch o.Kind {
+		case "post", "frame", "at", "inv-init", "inv-pres", "dec":
+			if !inBase[o.Name] && baseStem[stem(o.Name)] {
+				inBase[o.Name] = true
+			}
+		}
 	}
 	generated := map[string]bool{}
 	var violations []*Obligation
@@ -574,4 +586,12 @@ func (e *Engine) allProps() []string {
 		}
 	}
 	return sortedKeys(set)
+}
+
+// stem: obligation name without its trailing ordinal.
+func stem(n string) string {
+	if i := strings.LastIndex(n, "#"); i >= 0 {
+		return n[:i]
+	}
+	return n
 }
